@@ -105,6 +105,28 @@ theorem needs_trace_exact (d : Decl) :
       ∃ f ∈ d.fields, f.traced = true ∧ (f.ty.sem []).needsTrace = true :=
   needs_trace_exact_generic [] d
 
+/-- One traced field whose type needs tracing is enough: the generated constant is `true` whatever
+the other fields are, in whichever variant and position the field sits, and however its type is
+spelled. -/
+theorem needs_trace_of_traced_field (ρ : List Sem) (d : Decl) (o : Opts) (m : Mode)
+    (hp : parseTypeAttrs d.attrs = .ok o) (hm : o.mode = some m) (hne : m ≠ .requireStatic)
+    (f : Field) (hf : f ∈ d.fields) (hk : f.traced = true)
+    (hn : (f.ty.sem ρ).needsTrace = true) : needsTraceIn ρ d = true :=
+  (needs_trace_exact_generic ρ d).mpr ⟨⟨o, m, hp, hm, hne⟩, f, hf, hk, hn⟩
+
+/-- Pointer types need tracing regardless of their pointee (`Gc<'gc, Self>`, `GcWeak<'gc, Self>`,
+`Gc<'gc, RefLock<Self>>` are `Ty.gc` / `Ty.weak`), and every provided container of a type that
+needs tracing does (`Option<Gc<'gc, Self>>`, `Vec<Gc<'gc, Self>>`, `[Option<Gc<'gc, Self>>; 2]`). So a
+recursive node whose only pointer fields are links to `Self` still has `NEEDS_TRACE = true`. -/
+theorem pointer_types_need_trace (ρ : List Sem) :
+    (Ty.gc.sem ρ).needsTrace = true ∧ (Ty.weak.sem ρ).needsTrace = true ∧
+    ∀ (c : Con) (args : List Ty), (∃ a ∈ args, (a.sem ρ).needsTrace = true) →
+      ((Ty.con c args).sem ρ).needsTrace = true := by
+  refine ⟨by simp [Ty.sem, Sem.gc], by simp [Ty.sem, Sem.weak], ?_⟩
+  rintro c args ⟨a, ha, hn⟩
+  simp only [Ty.sem, Sem.con, Ty.sems_eq, List.any_eq_true]
+  exact ⟨a.sem ρ, List.mem_map.mpr ⟨a, ha, rfl⟩, hn⟩
+
 /-- `NEEDS_TRACE = false` is sound: a well-typed value of an accepted derive whose generated
 constant is `false` holds no arena pointer at all (so skipping it in `Trace::trace` loses nothing). -/
 theorem needs_trace_sound_generic (ρ : List Sem) (hρ : EnvGood ρ) (d : Decl) (v : Val)
@@ -406,6 +428,17 @@ example : deriveCheckIn (Ty.sems [] [.con .vec [.weak]]) test9 = .ok () ∧
 example : deriveCheck outer = .ok () ∧ HasType outerVal outer := by decide
 example : traceDerived outer outerVal = [(1, false), (2, true), (3, false)] := by decide
 example : ptrsOf outerVal = [(1, false), (2, true), (3, false)] := by decide
+
+-- a list node whose only pointer field is the link to `Self`:
+-- `struct Node<'gc> { value: u32, #[collect(require_static)] token: Token, next: Option<Gc<'gc, Self>> }`
+example : deriveCheck selfNode = .ok () ∧ needsTraceDerived selfNode = true := by decide
+example : HasType (.adt 0 [.leaf, .opaque [], .con [(0, .gc 5)]]) selfNode ∧
+    traceDerived selfNode (.adt 0 [.leaf, .opaque [], .con [(0, .gc 5)]]) = [(5, false)] := by decide
+-- `enum Tree<'gc> { Empty, Leaf(#[collect(require_static)] Token, u32), Branch { #[collect(require_static)]
+-- token: Token, children: Vec<Gc<'gc, Self>> } }`: the inactive variants do not hide the link
+example : deriveCheck selfTree = .ok () ∧ needsTraceDerived selfTree = true ∧
+    traceDerived selfTree (.adt 2 [.opaque [], .con [(0, .gc 1), (0, .gc 2)]]) = [(1, false), (2, false)] := by
+  decide
 
 -- tests/ui/bad_collect_bound.rs
 example : deriveCheck (strct [[.mode .noDrop]] 0 0 false .named [fld (.opaque true)])
